@@ -108,7 +108,7 @@ func init() {
 			{Name: "k0=set", Prog: []Op{C("SADD", k0, "a")}},
 		}
 		return &Spec{Prop: "C09", ShardNum: shardNum, Keys: []string{k0, k1}, Alphabet: ops, Seeds: seeds,
-			Depth: depthOf(tier, 2, 3), Budget: budget(tier, 150*time.Second, 25*time.Minute), TTLTolMs: 1000,
+			Depth: depthOf(tier, 3, 4), Budget: budget(tier, 150*time.Second, 25*time.Minute), TTLTolMs: 1000,
 			Rule: "BFS over programs of list commands (elements {a,b}, indexes/counts in -3..3 and beyond) from empty, seeded lists and wrong-typed keys; each transition executes the real executor and is compared with a Go-slice model (reply, LRANGE/LLEN/EXISTS/TYPE observers, list link invariants)"}
 	}
 
@@ -152,7 +152,7 @@ func init() {
 			{Name: "k0=list", Prog: []Op{C("RPUSH", k0, "a")}},
 		}
 		return &Spec{Prop: "C10", ShardNum: shardNum, Keys: []string{k0}, Alphabet: ops, Seeds: seeds,
-			Depth: depthOf(tier, 2, 3), Budget: budget(tier, 150*time.Second, 25*time.Minute), TTLTolMs: 1000,
+			Depth: depthOf(tier, 3, 4), Budget: budget(tier, 150*time.Second, 25*time.Minute), TTLTolMs: 1000,
 			Rule: "BFS over programs of hash commands (fields {f,g,''}, values incl. empty, numeric extremes, CRLF) from empty, seeded hashes and wrong-typed keys; compared with a map model (reply, HGETALL/HLEN/EXISTS/TYPE observers)"}
 	}
 
@@ -202,7 +202,7 @@ func init() {
 			{Name: "k0={a},k2={a,b}", Prog: []Op{C("SADD", k0, "a"), C("SADD", k2, "a", "b")}},
 		}
 		return &Spec{Prop: "C11", ShardNum: shardNum, Keys: keys, Alphabet: ops, Seeds: seeds,
-			Depth: depthOf(tier, 2, 3), Budget: budget(tier, 150*time.Second, 25*time.Minute), TTLTolMs: 1000,
+			Depth: depthOf(tier, 3, 4), Budget: budget(tier, 150*time.Second, 25*time.Minute), TTLTolMs: 1000,
 			Rule: "BFS over programs of set commands (members {a,b,''}; keys colliding and not; every combination of existing/missing/wrong-typed operands) compared with a map-of-sets model; SPOP's result is adopted after checking it was a current member"}
 	}
 
@@ -263,7 +263,7 @@ func init() {
 			{Name: "k0=string", Prog: []Op{C("SET", k0, "x")}},
 		}
 		return &Spec{Prop: "C12", ShardNum: shardNum, Keys: []string{k0}, Alphabet: ops, Seeds: seeds,
-			Depth: depthOf(tier, 2, 3), Budget: budget(tier, 150*time.Second, 25*time.Minute), TTLTolMs: 1000,
+			Depth: depthOf(tier, 3, 4), Budget: budget(tier, 150*time.Second, 25*time.Minute), TTLTolMs: 1000,
 			Rule: "BFS over programs of ZADD(options)/ZREM/ZRANK/ZRANGE (members a-e,A; tied, negative, fractional and infinite scores) from empty and seeded trees (incl. height 3); compared with a map+sort model; the AVL checker (BST order, heights, balance, len, dict<->Names) runs in every state"}
 	}
 
@@ -312,7 +312,67 @@ func init() {
 			{Name: "k0=string", Prog: []Op{C("SET", k0, "x")}},
 		}
 		return &Spec{Prop: "C18", ShardNum: shardNum, Keys: []string{k0}, Alphabet: ops, Seeds: seeds,
-			Depth: depthOf(tier, 2, 3), Budget: budget(tier, 150*time.Second, 25*time.Minute), TTLTolMs: 1000,
+			Depth: depthOf(tier, 3, 4), Budget: budget(tier, 150*time.Second, 25*time.Minute), TTLTolMs: 1000,
 			Rule: "BFS over programs of XADD (explicit/partial/auto ids, NOMKSTREAM, MAXLEN/MINID with = and ~) and XRANGE (all bound shapes) plus 1 ms / 1 s clock events; compared with an ordered-slice model; id order and id<->entry bijection checked in every state"}
+	}
+}
+
+func init() {
+	// ------------------------------------------------------------------ C06 expiry
+	specs["C06"] = func(tier string) *Spec {
+		ks := h.Keys(shardNum)
+		k0, k1 := ks.K0, ks.K1
+		var ops []Op
+		add := func(o ...Op) { ops = append(ops, o...) }
+		// clock events
+		add(Op{AdvMs: 500}, Op{AdvMs: 1000})
+		// ways of attaching a deadline
+		for _, t := range []string{"1", "2", "0", "-1"} {
+			add(C("EXPIRE", k0, t))
+			for _, o := range []string{"NX", "xx", "GT", "lt"} {
+				add(C("EXPIRE", k0, t, o))
+			}
+		}
+		add(C("EXPIRE", k0, "3", "GT"), C("EXPIRE", k0, "3", "LT"), C("EXPIRE", k0, "x"), C("EXPIRE", k0, "1", "FOO"), C("EXPIRE", k1, "1"))
+		for _, t := range []string{"1", "2"} {
+			add(C("SETEX", k0, t, "v"), C("SET", k0, "v", "EX", t), C("SET", k0, "v", "PX", t+"000"), C("SET", k0, "v", "EXAT", "@now+"+t))
+		}
+		add(C("SET", k0, "v", "PX", "1500"), C("SET", k0, "10", "EX", "1"))
+		// ways of keeping / replacing / removing it
+		add(C("SET", k0, "w"), C("SET", k0, "w", "KEEPTTL"), C("SET", k0, "w", "XX", "KEEPTTL"), C("PERSIST", k0), C("DEL", k0), C("RENAME", k0, k1), C("RENAME", k1, k0),
+			C("APPEND", k0, "x"), C("INCR", k0), C("MSET", k0, "m"), C("SETNX", k0, "n"),
+			C("LPUSH", k0, "a"), C("RPOP", k0), C("SADD", k0, "a"), C("SREM", k0, "a"), C("HSET", k0, "f", "v"), C("HDEL", k0, "f"),
+			C("ZADD", k0, "1", "a"), C("ZREM", k0, "a"), C("XADD", k0, "*", "f", "v"),
+			C("GET", k0), C("TTL", k0), C("EXISTS", k0), C("GETRANGE", k0, "0", "-1"), C("TYPE", k0), C("KEYS", "*"))
+		probes := []Op{
+			C("GET", k0), C("MGET", k0, k1), C("STRLEN", k0), C("EXISTS", k0), C("TYPE", k0), C("TTL", k0), C("KEYS", "*"), C("GETRANGE", k0, "0", "-1"),
+			C("LLEN", k0), C("LRANGE", k0, "0", "-1"), C("LINDEX", k0, "0"), C("LPOS", k0, "a"), C("SCARD", k0), C("SMEMBERS", k0), C("SISMEMBER", k0, "a"), C("SRANDMEMBER", k0),
+			C("HLEN", k0), C("HGET", k0, "f"), C("HGETALL", k0), C("HEXISTS", k0, "f"), C("HKEYS", k0), C("HVALS", k0), C("HSTRLEN", k0, "f"), C("HMGET", k0, "f"), C("HRANDFIELD", k0),
+			C("ZRANGE", k0, "0", "-1"), C("ZRANK", k0, "a"), C("XRANGE", k0, "-", "+"),
+			C("SETNX", k0, "n"), C("SET", k0, "n", "NX"), C("SET", k0, "n", "XX"), C("SET", k0, "n", "GET"), C("APPEND", k0, "x"), C("INCR", k0), C("DECR", k0), C("INCRBY", k0, "5"), C("INCRBYFLOAT", k0, "0.5"), C("SETRANGE", k0, "1", "z"),
+			C("LPUSHX", k0, "a"), C("RPUSHX", k0, "a"), C("RPUSH", k0, "a"), C("LPUSH", k0, "a"), C("LPOP", k0), C("RPOP", k0), C("LSET", k0, "0", "z"), C("LREM", k0, "0", "a"), C("LTRIM", k0, "0", "-1"),
+			C("LMOVE", k0, k1, "LEFT", "LEFT"), C("LMOVE", k1, k0, "LEFT", "LEFT"), C("BLPOP", k0, "1"),
+			C("SADD", k0, "b"), C("SREM", k0, "a"), C("SPOP", k0), C("SMOVE", k0, k1, "a"), C("SMOVE", k1, k0, "a"), C("SUNION", k0, k1), C("SINTER", k0), C("SDIFF", k0, k1),
+			C("SUNIONSTORE", k1, k0), C("SINTERSTORE", k1, k0), C("SDIFFSTORE", k1, k0), C("SUNIONSTORE", k0, k1),
+			C("HSET", k0, "g", "w"), C("HSETNX", k0, "f", "w"), C("HDEL", k0, "f"), C("HINCRBY", k0, "n", "1"), C("HINCRBYFLOAT", k0, "n", "0.5"),
+			C("ZADD", k0, "2", "b"), C("ZADD", k0, "XX", "2", "a"), C("ZREM", k0, "a"), C("XADD", k0, "*", "g", "w"), C("XADD", k0, "NOMKSTREAM", "*", "g", "w"),
+			C("DEL", k0), C("EXPIRE", k0, "10"), C("EXPIRE", k0, "10", "XX"), C("PERSIST", k0), C("RENAME", k0, k1), C("SET", k0, "w", "KEEPTTL"),
+		}
+		seeds := []Seed{
+			{Name: "empty"},
+			{Name: "string", Prog: []Op{C("SET", k0, "10")}},
+			{Name: "string+ttl1", Prog: []Op{C("SET", k0, "10", "EX", "1")}},
+			{Name: "string+ttl2,k1", Prog: []Op{C("SET", k0, "10", "EX", "2"), C("SET", k1, "x")}},
+			{Name: "list+ttl1", Prog: []Op{C("RPUSH", k0, "a", "b"), C("EXPIRE", k0, "1")}},
+			{Name: "hash+ttl1", Prog: []Op{C("HSET", k0, "f", "v"), C("EXPIRE", k0, "1")}},
+			{Name: "set+ttl1", Prog: []Op{C("SADD", k0, "a"), C("EXPIRE", k0, "1")}},
+			{Name: "zset+ttl1", Prog: []Op{C("ZADD", k0, "1", "a"), C("EXPIRE", k0, "1")}},
+			{Name: "stream+ttl1", Prog: []Op{C("XADD", k0, "5-1", "f", "v"), C("EXPIRE", k0, "1")}},
+			{Name: "list", Prog: []Op{C("RPUSH", k0, "a")}},
+		}
+		return &Spec{Prop: "C06", ShardNum: shardNum, Keys: []string{k0, k1}, Alphabet: ops, Seeds: seeds, ProbeOps: probes,
+			Lax: true, Variants: []string{"timers run when due", "timer goroutines withheld (lazy expiry only)"},
+			Depth: depthOf(tier, 3, 4), Budget: budget(tier, 150*time.Second, 25*time.Minute), TTLTolMs: 1000,
+			Rule: "BFS over programs of deadline-attaching / keeping / replacing / removing commands and clock events (0.5 s, 1 s) on every value type, in two scheduling variants; after the last level every reading and writing probe command is applied on a replayed copy; oracle = model with exact ms deadlines and a one-second ambiguity window around each deadline"}
 	}
 }
